@@ -151,10 +151,12 @@ def check_xml(ctx, model, style, loaded, obj, cfg, seed, exhaustive_positions=Tr
     # ---- unknown elements: every child position x shapes; the wrapper element of a list field is part of its
     # parent's content model, an element it does not declare is as unknown there as directly under the parent
     parent_cls = {}
+    parent_el = {}
     for e in class_bound:
         for x in e.items:
             if isinstance(x, rewrite.E) and x.info.get("wrapper"):
                 parent_cls[id(x)] = e.info["cls"]
+                parent_el[id(x)] = e
     wrappers = [e for e in elements if id(e) in parent_cls]
     for e in class_bound + wrappers:
         owner = e.info.get("cls") or parent_cls[id(e)]
@@ -180,6 +182,26 @@ def check_xml(ctx, model, style, loaded, obj, cfg, seed, exhaustive_positions=Tr
                     del e.items[pos]
                 ctx.feature(f"fault:unknown-element/{shape}")
                 judge_unknown(ctx, data, clazz, clean, "element", w0, f"{shape}@{pos}")
+            if id(e) in parent_el:
+                # inside a wrapper, an element named like a field its parent knows *outside* the wrapper (and carrying a copy of a
+                # wrapper item below it) is unknown too; the real sibling after the wrapper must still be read (seeded change C10-r4-1)
+                own = {(x.ns, x.local) for x in e.items if isinstance(x, rewrite.E)}
+                sibs = [x for x in parent_el[id(e)].items if isinstance(x, rewrite.E) and x is not e and (x.ns, x.local) not in own and not x.info.get("wrapper")]
+                for sib in sibs[:2]:
+                    sub = rewrite.E(sib.ns, sib.local)
+                    deep = rewrite.E(None, "deep")
+                    for o in list(own)[:1]:
+                        k = rewrite.E(*o)
+                        k.items = ["9"]
+                        deep.items.append(k)
+                    sub.items = ["eve", deep]
+                    e.items.insert(pos, sub)
+                    try:
+                        data = emit(root, rng)
+                    finally:
+                        del e.items[pos]
+                    ctx.feature("fault:unknown-element-inside-wrapper/named-like-outer-sibling")
+                    judge_unknown(ctx, data, clazz, clean, "element", w0, f"outer-sibling@{pos}")
 
     # ---- unknown attributes
     for e in class_bound:
@@ -509,7 +531,39 @@ def check_xsi_attributes_on_union_elements(ctx):
                         ctx.violation(f"xsi-attribute/changes-the-object/{handler}", f"{doc.format(a=attr)}\nwithout: {v0!r}\nwith: {v1!r}", {"fn": "xsi-on-union"})
 
 
+def check_unknown_inside_class_union(ctx):
+    """Directed (vf/props/c10_models.py, Root.u: Union[A, B]): an unknown element, at every child position of the element bound to
+    a union of classes, is skipped when fail_on_unknown_properties is off and a ParserError when it is on (seeded change
+    C10-r4-2: the configuration used to replay the union candidates forced strictness)."""
+    from vf.props.c10_models import Root
+
+    bodies = [["<x><n>1</n></x>", "<b>s</b>"], ["<x><n>2</n></x>", "<a>s</a>"], ["<b>only</b>"]]
+    unknowns = ["<unk/>", "<unk>t</unk>", "<unk a='1'><a>x</a><n>7</n></unk>", "<zz xmlns='urn:vf:foreign'><in/></zz>"]
+    for body in bodies:
+        clean_doc = "<Root><u>" + "".join(body) + "</u><p><a>z</a></p></Root>"
+        for pos in range(len(body) + 1):
+            for unk in unknowns:
+                doc = "<Root><u>" + "".join(body[:pos]) + unk + "".join(body[pos:]) + "</u><p><a>z</a></p></Root>"
+                for handler in bc.HANDLERS:
+                    for opts in OPTS:
+                        ctx.case("unknown-in-class-union", doc, handler, opts)
+                        ctx.evals()
+                        ctx.feature("fault:unknown-element-inside-class-union")
+                        (st0, v0), _ = run_parse(clean_doc.encode(), Root, handler, opts)
+                        (st1, v1), _ = run_parse(doc.encode(), Root, handler, opts)
+                        w = {"fn": "unknown-in-class-union"}
+                        if st0 != "ok" or v0.u is None:
+                            ctx.inconc(f"directed union document does not parse: {v0}")
+                        elif opts[0] and st1 != "ParserError":
+                            ctx.violation(f"unknown-element/class-union/strict-accepts/{handler}", f"{doc}\nopts={opts}\n{st1}: {v1!r}", w)
+                        elif not opts[0] and (st1 != "ok" or deep_eq(v0, v1)):
+                            ctx.violation(f"unknown-element/class-union/lenient-{'differs' if st1 == 'ok' else 'raises'}/{handler}", f"{doc}\nopts={opts}\nclean: {v0!r}\nfaulted: {st1}: {v1!r}", w)
+
+
 def replay(witness, ctx):
+    if witness.get("fn") == "unknown-in-class-union":
+        check_unknown_inside_class_union(ctx)
+        return
     if witness.get("fn") == "xsi-on-union":
         check_xsi_attributes_on_union_elements(ctx)
         return
@@ -533,6 +587,7 @@ def run_shard(ctx):
         except Exception as e:  # noqa: BLE001
             ctx.inconc(f"probe failed to run: {type(e).__name__}: {e}")
         check_xsi_attributes_on_union_elements(ctx)
+        check_unknown_inside_class_union(ctx)
     n_models = ctx.per_shard(ctx.pick(260, 6000))
     min_d = MIN_DISTINCT[ctx.tier] // ctx.nshards + 1
     k = 0
